@@ -37,6 +37,8 @@ def strategy(tier):
       resetB=st.booleans(),
       poison=st.sampled_from(["none", "finite", "finite"]),
       sigmaB=st.sampled_from([0.0, 0.1, 0.4]),
+      # contact-only model of free bodies whose copied state is lifted clear of everything: the dirty Data solved with rows, the copied state has none
+      lift=st.sampled_from([False, False, False, True]),
     )
   )
 
@@ -119,6 +121,8 @@ def snap(m, d):
 def check(case, rec):
   cfg = dict(case["cfg"])
   cfg["option"] = dict(case["opt"])
+  if case.get("lift"):
+    cfg.update(limits=0.0, frictionloss=0.0, equalities=0, tendons=0, spatial_tendons=0, joint_menu=["free"], maxdepth=0, mocap=0, pairs=0)
   mjm = H.compile_spec(gen.make_spec(cfg))
   if mjm.nv == 0:
     raise Reject("nv=0")
@@ -132,6 +136,12 @@ def check(case, rec):
   history(mjm, m, B, case["seedB"], case["histB"], case["sigmaB"], reset=case["resetB"])
   stale_con = int(B.nacon.numpy()[0])
   stale_efc = int(B.nefc.numpy().max())
+  if case.get("lift") and mjm.nq == 7 * (mjm.nbody - 1):
+    q = A.qpos.numpy().copy()
+    for b in range(mjm.nbody - 1):
+      q[:, 7 * b : 7 * b + 3] = [3.0 * b, 0.0, 5.0 + 2.0 * b]
+    A.qpos.assign(q)
+    rec.cls("lifted")
   state = H.get_state(m, A, mjm)
   if not np.all(np.isfinite(state)):
     rec.inconclusive += 1
